@@ -288,7 +288,20 @@ fn run_e2_property(id: &str, thorough: bool, ev: &mut Evidence) {
         eprintln!("  {} : states={} transitions={} {:.1}s {} {}", r.family, r.stats.states, r.stats.transitions, r.wall_s, if r.complete { "complete" } else { "INCOMPLETE" }, r.note);
         ev.families.push(r);
     }
-    for r in e2::run_configs(id, checks, &cfgs) {
+    let results = e2::run_configs(id, checks, &cfgs);
+    // determinism: one configuration explored a second time (alone, on another worker) must reproduce counts and digest
+    if !report::stopped() {
+        if let Some(k) = (0..cfgs.len()).find(|&i| results[i].complete && results[i].stats.states < 50_000 && results[i].stats.states > 1_000) {
+            let again = e2::run_config(id, checks, &cfgs[k], k as u64);
+            let a = &results[k].stats;
+            if again.stats.states != a.states || again.stats.transitions != a.transitions || again.stats.digest != a.digest {
+                println!("MACHINERY-ERROR: re-exploring E2 configuration '{}' gave different counts/digest ({} / {} / {:016x} vs {} / {} / {:016x})", cfgs[k].name, again.stats.states, again.stats.transitions, again.stats.digest, a.states, a.transitions, a.digest);
+                std::process::exit(2);
+            }
+            ev.extra.insert("determinism_rerun_e2".into(), serde_json::json!({"configuration": cfgs[k].name, "states": a.states, "transitions": a.transitions, "digest": format!("{:016x}", a.digest), "identical": true}));
+        }
+    }
+    for r in results {
         eprintln!("  {} : states={} transitions={} {:.1}s {} {}", r.family, r.stats.states, r.stats.transitions, r.wall_s, if r.complete { "complete" } else { "INCOMPLETE" }, r.note);
         ev.families.push(r);
     }
